@@ -67,6 +67,7 @@ def gen_two_resonance_case(rng, oid):
     first, second = ((None, None), (split, None)) if rng.random() < 0.6 else ((split, None), (None, split))
     par0 = dict(n=2.0, maxit=50, dfn=str(rng.choice(hvgen.DISTS)), dmc=str(rng.choice(hvgen.DISTS)))
     m.pre_ops = [["fdwra", par0, list(first), False, None]]
+    m.strict_mc = True
     par = dict(par0, n=float(rng.choice([1.5, 2.0])), range=second)
     return m, par
 
@@ -289,7 +290,9 @@ def run(ctx):
                             continue
                         a = dbg[j][key]
                         a = None if a != a else a
-                        if not close(a, v, float(np.max(m.freq)), 1e-8) and not (key.startswith("mc_peak") ):
+                        # the peak of the mean curve per iteration is an argmax of a computed curve (rounding ties): compared only where the two resonances of
+                        # the planted curves are an octave apart (strict_mc), and at the final state below
+                        if not close(a, v, float(np.max(m.freq)), 1e-8) and not (key.startswith("mc_peak") and not getattr(m, "strict_mc", False)):
                             ctx.violation("iteration-statistics", dict(case=cj, iteration=j + 1, key=key, impl=a, model=v),
                                           seam="DEBUG trace of hvsrpy.window_rejection")
                 if j == nt - 1 and j < len(dbg) and "mc_peak_frq_after" in dbg[j]:
